@@ -712,7 +712,9 @@ func (w *keyLog) Write(p []byte) (int, error) {
 	if atomic.AddInt32(&w.in, 1) != 1 {
 		atomic.StoreInt32(&w.overlap, 1)
 	}
-	runtime.Gosched()
+	for i := 0; i < 50; i++ { // a writer that takes its time (a file, a pipe): other connections get to run meanwhile
+		runtime.Gosched()
+	}
 	w.buf = append(w.buf, p...)
 	atomic.AddInt32(&w.in, -1)
 	return len(p), nil
@@ -760,7 +762,7 @@ func TestC20_SharedConfig(t *testing.T) {
 		keys := [][32]byte{{1, byte(cn)}}
 		sc.SetSessionTicketKeys(keys)
 		var kl *keyLog
-		if rapid.Bool().Draw(t, "keylog") {
+		if gen.Uniform(t, "keylog", 4) != 0 {
 			// one key log for the client Config and the server Config (two Config values, one writer)
 			kl = &keyLog{}
 			cc.KeyLogWriter, sc.KeyLogWriter = kl, kl
